@@ -442,6 +442,10 @@ def universes(chk):
     us.append({"name": "circular a <-> b <-> root", "packages": [(), ("a",), ("b",)],
                "refs": [((), [("a",)]), (("a",), [("b",), ()]), (("b",), [()])]})
     us.append({"name": "well-known types", "packages": [(), ("a", "b")], "refs": [((), [()]), (("a", "b"), [()])], "wkt": True})
+    # packages spelled like the type names of the root package up to CASE (msg / Msg, color / Color): the import lines
+    # `from .. import Msg as _Msg__` and `from .. import msg as _msg__` of one module differ in case only
+    us.append(all_at_once([(), ("msg",), ("color",), ("msg", "color"), ("x",), ("x", "msg")],
+                          "packages spelled like root type names up to case (msg / Msg, color / Color)"))
     if not quick:
         us.append(all_at_once(paths(["a", "b"], 3), "all-at-once depth<=3 over {a,b}", wkt=True))
         us.append(all_at_once(paths(["v1", "x2y", "pkg"], 2), "all-at-once digits in segments"))
